@@ -178,9 +178,12 @@ class FileCache(TileCacheBase):
         log.debug('linking %r from %s to %s',
                   tile.coord, real_tile_loc, tile_loc)
 
-        # nothing to do if tile_loc already is (a link to) the single color tile
-        # (for hard links rename() would be a no-op and leave the temporary name behind)
-        if os.path.exists(tile_loc) and os.path.samefile(real_tile_loc, tile_loc):
+        # nothing to do if tile_loc already is a hard link to the single color tile
+        # (rename() of one hard link over another link to the same file is a no-op and
+        # would leave the temporary name behind). A symlink is always created anew:
+        # its own modification time is the time this tile was stored.
+        if (self.link_single_color_images == 'hardlink' and os.path.exists(tile_loc)
+                and os.path.samefile(real_tile_loc, tile_loc)):
             return
 
         # Create the link under a temporary name and rename it over tile_loc
